@@ -73,7 +73,11 @@ class LeafNode(TreeNode):
 
     def edits(self, node: TreeNode) -> Edit:
         if isinstance(node, LeafNode):
-            return Match(self, node, levenshtein_distance(str(self.object), str(node.object)))
+            cost = levenshtein_distance(str(self.object), str(node.object))
+            if cost == 0 and self != node:
+                # The two objects differ (e.g., 1 vs. "1") even though their string representations are the same
+                cost = 1
+            return Match(self, node, cost)
         elif isinstance(node, ContainerNode):
             return Replace(self, node)
 
@@ -104,7 +108,8 @@ class LeafNode(TreeNode):
 
     def __eq__(self, other):
         if isinstance(other, LeafNode):
-            return self.object == other.object
+            # objects of different types are never equal, even if Python considers them so (e.g., True == 1)
+            return type(self.object) is type(other.object) and self.object == other.object
         else:
             return self.object == other
 
